@@ -339,6 +339,17 @@ func (e *Env) ident(name string) (Val, types.Type, error) {
 		return Val{K: KRef, T: "0", Typ: types.Typ[types.UntypedNil]}, types.Typ[types.UntypedNil], nil
 	}
 	if e.fr != nil {
+		// free variables of a closure: pointers to the enclosing function's cells
+		for _, fv := range e.fr.fn.FreeVars {
+			if fv.Name() == name {
+				if pv, ok := e.fr.vals[fv]; ok {
+					if pt, ok := fv.Type().Underlying().(*types.Pointer); ok {
+						l := f.derefLoc(f.termAs(pv, KRef, 0), pt.Elem())
+						return f.load(e.st, l), pt.Elem(), nil
+					}
+				}
+			}
+		}
 		// parameters at entry
 		if pv, ok := e.fr.params[name]; ok && (e.entryParams || e.pos == token.NoPos) {
 			return pv, pv.Typ, nil
